@@ -148,6 +148,11 @@ where
         hmac.update(&((aad.len() as u64) * 8).to_be_bytes());
         let mac = hmac.finalize().into_bytes();
         let tag_match = tag.as_ref().ct_eq(&mac[..TagSize::<Self>::USIZE]);
+        // Decide on the MAC before looking at the padding: every forgery is rejected
+        // with the same error, whether or not it happens to decrypt to valid padding
+        if tag_match.unwrap_u8() != 1 {
+            return Err(err_msg!(Encryption, "AEAD decryption error"));
+        }
 
         let enc_key = GenericArray::from_slice(&self.0[C::KeySize::USIZE..]);
         let dec_len = <CbcDec<C> as KeyIvInit>::new(enc_key, GenericArray::from_slice(nonce))
@@ -155,12 +160,7 @@ where
             .map_err(|_| err_msg!(Encryption, "AES-CBC decryption error"))?
             .len();
         buffer.buffer_resize(dec_len)?;
-
-        if tag_match.unwrap_u8() != 1 {
-            Err(err_msg!(Encryption, "AEAD decryption error"))
-        } else {
-            Ok(())
-        }
+        Ok(())
     }
 
     fn aead_params(&self) -> KeyAeadParams {
